@@ -1017,6 +1017,13 @@ func structuralRows() []row {
 				return []string{kv(key, vStr("short")), kv(key+"Verbose", vStr("short\nstack..."))}
 			}},
 			{"verboseErr(same)", "formatter", verboseErr{"only", ""}, plain("only")},
+			// the verbose form differs from the message without being longer
+			{"verboseErr(shorter verbose)", "formatter", verboseErr{"a long message", "E42"}, func(key string) []string {
+				return []string{kv(key, vStr("a long message")), kv(key+"Verbose", vStr("E42"))}
+			}},
+			{"verboseErr(same length, different)", "formatter", verboseErr{"abcd", "abcX"}, func(key string) []string {
+				return []string{kv(key, vStr("abcd")), kv(key+"Verbose", vStr("abcX"))}
+			}},
 			{"groupErr{boom,nil,wrap}", "error-group", ge, func(key string) []string {
 				return []string{kv(key, vStr("group")), kv(key+"Causes", vArr("", []string{errObjLine("boom"), errObjLine("wrap: boom")}))}
 			}},
@@ -1035,7 +1042,7 @@ func structuralRows() []row {
 		re.keyless = true
 		rows = append(rows, listRow("zap.NamedError", "error", nc, nil), re)
 
-		// Errors: all lists of <= 3 over {boom, nil, wrap, typed-nil(guarded), verbose}
+		// Errors: all lists of <= 3 over {boom, nil, wrap, typed-nil(guarded), verbose, verbose-shorter}
 		type es struct {
 			desc string
 			e    error
@@ -1047,6 +1054,7 @@ func structuralRows() []row {
 			{"wrap", e3, []string{errObjLine("wrap: boom")}},
 			{"guarded-typed-nil", (*guardedErr)(nil), []string{errObjLine("guarded-nil-error")}},
 			{"verbose", verboseErr{"s", "s+"}, []string{vObj("", []string{kv("error", vStr("s")), kv("errorVerbose", vStr("s+"))})}},
+			{"verbose-shorter", verboseErr{"long msg", "v"}, []string{vObj("", []string{kv("error", vStr("long msg")), kv("errorVerbose", vStr("v"))})}},
 		}
 		lists := [][]es{nil}
 		cur := [][]es{nil}
